@@ -692,6 +692,25 @@ impl Addresses {
     }
 }
 
+/// Public entries for the solver-based checks in `/verif` (`--cfg gmsol_verif`); thin wrappers only.
+#[cfg(gmsol_verif)]
+impl Store {
+    /// See `Amounts::get_mut` (by key, without the string parse).
+    pub fn verif_amount_mut(&mut self, key: AmountKey) -> Option<&mut Amount> {
+        self.amount.get_mut(&key)
+    }
+
+    /// See `Factors::get_mut` (by key, without the string parse).
+    pub fn verif_factor_mut(&mut self, key: FactorKey) -> Option<&mut Factor> {
+        self.factor.get_mut(&key)
+    }
+
+    /// See `Addresses::get_mut` (by key, without the string parse).
+    pub fn verif_address_mut(&mut self, key: AddressKey) -> Option<&mut Pubkey> {
+        self.address.get_mut(&key)
+    }
+}
+
 #[cfg(test)]
 mod tests {
     use super::*;
